@@ -35,7 +35,7 @@ def c01(tier, seed):
     if tier == "thorough":
         scs += L.diverse(rnd, 240, focus="no_restrictive") + L.hard_cases(rnd)
     else:
-        scs += L.diverse(rnd, 6, focus="no_restrictive") + L.hard_cases(rnd, 5)
+        scs += L.diverse(rnd, 6, focus="no_restrictive") + L.hard_cases(rnd)
     return scs
 
 
@@ -100,7 +100,7 @@ def c03(tier, seed):
         S("Sorghum", seed=seed + 15, soil_spec=L.LAYERED_SOILS["three_layer"], irr={"method": 4, "kw": {"NetIrrSMT": 35}}, iwc={"value": ["FC", "FC", "FC"], "depth_layer": [1, 2, 3]}, regime="hot"),
         S("Cotton", seed=seed + 12, regime="wet", soil_spec=L.LAYERED_SOILS["low_ksat"], iwc={"value": ["FC", "SAT"], "depth_layer": [1, 2]}, events=storms),
     ]
-    scs += L.diverse(rnd, 220 if tier == "thorough" else 5, focus="no_restrictive") + L.hard_cases(rnd, None if tier == "thorough" else 5)
+    scs += L.diverse(rnd, 220 if tier == "thorough" else 5, focus="no_restrictive") + L.hard_cases(rnd)
     return scs
 
 
@@ -132,5 +132,5 @@ def c04(tier, seed):
         S("Soybean", "SiltClay", seed=seed + 33, field={"bunds": True, "z_bund": 0.12},
           events=wet[:4] + [{"date": "2001/08/10", "P": 140}, {"date": "2001/08/11", "P": 100}, {"date": "2001/08/12", "P": 100}, {"date": "2001/08/13", "P": 90}]),
     ]
-    scs += L.diverse(rnd, 200 if tier == "thorough" else 4, focus="no_restrictive") + L.hard_cases(rnd, None if tier == "thorough" else 5)
+    scs += L.diverse(rnd, 200 if tier == "thorough" else 4, focus="no_restrictive") + L.hard_cases(rnd)
     return scs
